@@ -42,6 +42,8 @@ def gen_cases(tier, seed):
               "nsched": 4 if tier == "quick" else 7} for i in range(n)]
     cases += [{"id": f"c02-hostile-{seed}-{i}", "seed": seed * 9001 + 50000 + i, "kind": "hostile",
                "nsched": 4 if tier == "quick" else 7} for i in range(n // 2)]
+    cases += [{"id": f"c02-directed-{seed}-{i}", "seed": seed * 9001 + 70000 + i, "kind": "directed",
+               "nsched": 8 if tier == "quick" else 12} for i in range(3 if tier == "quick" else 20)]
     pairs = []
     claims = ["static", "out", "vol", "amend_out", "amend_vol", "tree", "glob", "inp", "amend_inp", "static_pattern"]
     for ka in claims:
@@ -58,6 +60,23 @@ def gen_cases(tier, seed):
         cases.append({"id": f"c02-text-{seed}-{k // chunk}", "seed": seed + k, "kind": "text",
                       "pairs": chosen[k:k + chunk]})
     return cases
+
+
+def directed_deferred_subplan():
+    """An optional producer whose consumer is defined by a sub-plan that is deferred once (it amends
+    the output of a step that may not be built yet) and recycles its steps when it runs again."""
+    steps = {
+        "P": {"kind": "do", "salt": "", "inp": ["src/a.txt"], "out": ["out/foo.txt"], "need": "OPTIONAL"},
+        "L": {"kind": "do", "salt": "", "inp": ["src/a.txt"], "out": ["out/late.txt"]},
+        "X": {"kind": "do", "salt": "", "inp": ["src/a.txt"], "out": ["out/x.txt"]},
+        "C": {"kind": "do", "salt": "", "inp": ["out/foo.txt"], "out": ["out/bar.txt"]},
+    }
+    return {"sources": {"src/a.txt": "a\n"}, "env": {}, "steps": steps, "order": ["P", "L", "X", "C"],
+            "plans": {".": [["static", ["src/a.txt", "sub/plan.py"]], ["step", "P"], ["step", "L"], ["plan", "sub"]],
+                      "sub": [["step", "X"], ["raw", {"a": "gate", "name": "s0"}], ["step", "C"],
+                              ["raw", {"a": "gate", "name": "s1"}],
+                              ["raw", {"a": "amend", "inp": ["out/late.txt"]}],
+                              ["raw", {"a": "read", "path": "out/late.txt"}]]}}
 
 
 def rc_class(rc):
@@ -129,7 +148,10 @@ def run_case(case):
 
     hostile = case["kind"] == "hostile"
     for rep in range(2):
-        spec = gen.gen_project(rng, prob={"res": 0.4})
+        if case["kind"] == "directed":
+            spec = directed_deferred_subplan()
+        else:
+            spec = gen.gen_project(rng, prob={"res": 0.4})
         fixed = {}
         if hostile:
             spec = c10.add_hostility(rng, spec)
